@@ -306,11 +306,24 @@ class FloatBackend(BackendBase):
         self.obligations.append(ob)
         return ok
 
+    @staticmethod
+    def _scale_of(kw):
+        """natural magnitude of an obligation whose two sides may both be ~0 (a residual): product of the max-abs of the given arrays"""
+        arrs = kw.get("scale_of")
+        if not arrs:
+            return None
+        sc = 1.0
+        for a_ in arrs:
+            v = np.asarray(_data_of(a_))
+            v = v[~np.isnan(v)] if v.size else v
+            sc *= float(np.max(np.abs(v))) if v.size else 1.0
+        return max(sc, 1e-300)
+
     def eq(self, name, a, b, ignore_order=False, **kw):
-        return self._cmp(name, "eq", a, b, ignore_order)
+        return self._cmp(name, "eq", a, b, ignore_order, scale=self._scale_of(kw))
 
     def ge(self, name, a, b, **kw):
-        return self._cmp(name, "ge", a, b)
+        return self._cmp(name, "ge", a, b, scale=self._scale_of(kw))
 
     def zero(self, name, a, **kw):
         return self._cmp(name, "eq", a, np.zeros(np.shape(_data_of(a))) if not isinstance(a, (xr.DataArray, xr.Dataset, list)) else a * 0)
@@ -443,9 +456,11 @@ class SymBackend(BackendBase):
         self.pending_goals.append((ob, goals, {"rounds": rounds, "maxdeg": maxdeg, "products": products}))
 
     def eq(self, name, a, b, ignore_order=False, **kw):
+        kw.pop("scale_of", None)  # only meaningful for the float replay
         self._cmp(name, "eq", a, b, ignore_order, **kw)
 
     def ge(self, name, a, b, **kw):
+        kw.pop("scale_of", None)
         self._cmp(name, "ge", a, b, **kw)
 
     def value(self, x):
